@@ -92,11 +92,28 @@ func copyBlock(v reflect.Value, block Block) error {
 			return fmt.Errorf("found field %q but is unexported", f.Name)
 		}
 
-		namei := f.Index[0]
+		if x == nil {
+			return fmt.Errorf(
+				"nil value for the mapped field: struct.%s has %s, block.%s is nil",
+				f.Name, f.Type, name,
+			)
+		}
+
+		// f.Index is a path when the field is promoted from an embedded struct
+		fv, err := v.FieldByIndexErr(f.Index)
+		if err != nil {
+			return fmt.Errorf("field %q not reachable: %w", f.Name, err)
+		}
 		vx := reflect.ValueOf(x)
 
 		if vx.Type().AssignableTo(blockType) {
-			return copyBlock(v.Field(namei), x.(Block))
+			if k := fv.Kind(); k != reflect.Struct {
+				return fmt.Errorf(
+					"type mismatch for the mapped field: struct.%s has %s, block.%s is a nested block",
+					f.Name, f.Type, name,
+				)
+			}
+			return copyBlock(fv, x.(Block))
 		}
 
 		if st, bt := f.Type, vx.Type(); !bt.AssignableTo(st) {
@@ -106,7 +123,7 @@ func copyBlock(v reflect.Value, block Block) error {
 			)
 		}
 
-		v.Field(namei).Set(vx)
+		fv.Set(vx)
 		return nil
 	}
 
